@@ -26,10 +26,11 @@ VARIABLES inited, execed, finalized,   \* sets of instance ids
           forced,                      \* item id -> tick of the accepted force
           p,                           \* previous tickEnd
           newRun,                      \* a new run has begun and its first line has not been seen yet
+          seen,                        \* witnesses: antecedents of clauses that held at least once (vacuity guard)
           tid, l, viols, done
 mvars == <<inited, execed, finalized, tickExec, cancelledWatch, mustFinalize, mustUnpause, mustUnhold, otherPause, otherHold,
           forced, p, newRun>>
-tvars == <<mvars, tid, l, viols, done>>
+tvars == <<mvars, seen, tid, l, viols, done>>
 T == Traces[tid].ev
 SetOfSeq(q) == {q[i] : i \in DOMAIN q}
 Conflicts(a, b) == a = b \/ \E g \in OverlapGroups : a \in g /\ b \in g
@@ -73,10 +74,30 @@ TickClauses(e) ==
        <<"C12.force-proceeds@item-of-earlier-invocation",
          \A f \in forced : (f[4] # "" /\ ForceDue(f, e)) => f[1] \in SetOfSeq(e.proceededEver)>> >>
 
+(* which antecedents hold at this event (evaluated in the state before the event) *)
+Witness(e) ==
+    CASE e.e = "req" ->
+            (IF e.res = "ok" THEN {e.k \o "-accepted:" \o e.kind} ELSE {}) \cup
+            (IF e.res # "ok" /\ ~e.offered THEN {"not-offered-rejected"} ELSE {}) \cup
+            (IF e.k = "cancel" /\ e.res = "ok" /\ e.cls = "WatchNode" THEN {"watch-cancel-accepted"} ELSE {})
+      [] e.e = "tickEnd" ->
+            (IF cancelledWatch # {} THEN {"tick-with-cancelled-watch"} ELSE {}) \cup
+            (IF mustFinalize # {} THEN {"tick-after-uod-cancel"} ELSE {}) \cup
+            (IF mustUnpause /\ ~otherPause THEN {"tick-after-pause-cancel"} ELSE {}) \cup
+            (IF mustUnhold /\ ~otherHold THEN {"tick-after-hold-cancel"} ELSE {}) \cup
+            (IF \E f \in forced : ForceDue(f, e) THEN {"force-due"} ELSE {}) \cup
+            (IF forced # {} THEN {"tick-with-accepted-force-not-yet-proceeded"} ELSE {}) \cup
+            (IF RunEnded(e) THEN {"run-ended"} ELSE {}) \cup
+            (IF RunEnded(e) /\ inited # {} THEN {"run-ended-with-commands"} ELSE {}) \cup
+            (IF newRun /\ e.firstLine # "" THEN {"restarted-first-line"} ELSE {})
+      [] e.e = "runStopped" -> {"run-stopped-message"}
+      [] e.e = "exec" -> (IF \E x \in tickExec : x[1] # e.name THEN {"two-commands-in-one-tick"} ELSE {})
+      [] OTHER -> {}
+
 NoPrev == [t |-> -1]
 TInit == /\ inited = {} /\ execed = {} /\ finalized = {} /\ tickExec = {} /\ cancelledWatch = {} /\ mustFinalize = {}
          /\ mustUnpause = FALSE /\ mustUnhold = FALSE /\ otherPause = FALSE /\ otherHold = FALSE /\ forced = {} /\ p = NoPrev /\ newRun = FALSE
-         /\ tid \in 1..Len(Traces) /\ l = 1 /\ viols = {} /\ done = FALSE
+         /\ tid \in 1..Len(Traces) /\ l = 1 /\ viols = {} /\ done = FALSE /\ seen = {}
 
 Step ==
     /\ l <= Len(T)
@@ -117,8 +138,8 @@ Step ==
               /\ IF RunEnded(e) THEN inited' = {} /\ execed' = {} /\ finalized' = {} /\ cancelledWatch' = {}
                                       /\ otherPause' = FALSE /\ otherHold' = FALSE
                  ELSE UNCHANGED <<inited, execed, finalized, cancelledWatch, otherPause, otherHold>>
-    /\ l' = l + 1 /\ UNCHANGED <<tid, done>>
+    /\ l' = l + 1 /\ seen' = seen \cup Witness(T[l]) /\ UNCHANGED <<tid, done>>
 
-Finish == /\ l = Len(T) + 1 /\ ~done /\ done' = TRUE /\ Report(Traces[tid].id, l - 1, viols) /\ UNCHANGED <<mvars, tid, l, viols>>
+Finish == /\ l = Len(T) + 1 /\ ~done /\ done' = TRUE /\ ReportW(Traces[tid].id, l - 1, viols, seen) /\ UNCHANGED <<mvars, seen, tid, l, viols>>
 TSpec == TInit /\ [][Step \/ Finish]_tvars
 =============================================================================
